@@ -17,6 +17,8 @@ From Coq Require Import List Bool NArith ZArith Lia.
 Import ListNotations.
 From Ont Require Import Lib.Bytes Model.Codec Gen.ProgramConsts Model.Program Model.Sig.
 From Ont Require Import Proofs.Sig Proofs.SigAbs.
+From Ont Require Gen.TxConsts Model.TxCodec Proofs.TxCodec.
+From Ont Require Import Model.SigTx Proofs.SigTx.
 Local Open Scope N_scope.
 
 (** 1. accept_sound.  If the validator accepts an Ontology-format transaction, then: there are at
@@ -199,6 +201,28 @@ Theorem c16_no_crash_partial :
   check_transaction_signatures deser asig sdeser (abs_verify weak) H Keth t <> VCrash.
 Proof. exact no_crash_proof. Qed.
 Print Assumptions c16_no_crash_partial.
+
+(** 9. On transaction BYTES (decoder of C19 composed with the validator): two inputs that decode
+    to Ontology-format transactions carrying the same signature section but different signed
+    bytes (the unsigned part: version, type, nonce, gas price, gas limit, payer, payload,
+    attribute count) - if the first is accepted, the second is never accepted, or the two signed
+    byte strings exhibit a collision of the hash function (sha256). *)
+Theorem c16_signed_bytes_mutation_not_accepted :
+  forall (Hsha : bytes -> bytes) etx (E : TxCodec.ethapi etx),
+  (forall b e, TxCodec.rlp_dec E b = Some e -> TxCodec.rlp_enc E e = b) ->
+  forall weak deser sdeser H Keth s1 s1' t1 s2 s2' t2 addrs,
+  Proofs.TxCodec.good s1 -> Proofs.TxCodec.good s2 ->
+  TxCodec.tx_deserialization Hsha E s1 = (inl t1, s1') -> TxCodec.tx_deserialization Hsha E s2 = (inl t2, s2') ->
+  TxCodec.t_type t1 <> TxConsts.TX_EIP155 -> TxCodec.t_type t2 <> TxConsts.TX_EIP155 ->
+  check_transaction_signatures deser asig sdeser (abs_verify weak) H Keth (vtx_of_tx t1) = VAccept addrs ->
+  TxCodec.t_sigs t2 = TxCodec.t_sigs t1 ->
+  TxCodec.tx_encode_unsigned E t1 <> TxCodec.tx_encode_unsigned E t2 ->
+  (forall addrs', check_transaction_signatures deser asig sdeser (abs_verify weak) H Keth (vtx_of_tx t2) <> VAccept addrs') \/
+  (exists x y, x <> y /\ Hsha x = Hsha y).
+Proof.
+  intros Hsha etx E C weak deser sdeser H Keth. exact (signed_bytes_mutation_proof Hsha etx E C weak deser sdeser H Keth).
+Qed.
+Print Assumptions c16_signed_bytes_mutation_not_accepted.
 
 (** Non-vacuity: a concrete transaction with a 2-of-3 set (keys of three different types) and a
     single-key set is accepted; its payer is the single-key account; the same signatures under
